@@ -533,6 +533,8 @@ class Prog:
             "retain_gt": "map(|x: i64| { let r: &mut _ = #%smut %s; r.retain(|y: &i64| *y > x); x })" % (g, name),
         }[fn]
         self.need(s, "i")
+        if fn in ("acc_mut", "push_mut", "opt_mut") and not self.od(s):
+            raise GenError("order-sensitive mutating closure on an unordered stream")
         return self._add("ref_map", [s], ["i"], [self.od(s)], txt, fn=fn, refs=[cell[0]],
                          k=-1 if group is None else group)
 
@@ -611,8 +613,8 @@ class Prog:
             return False
         QUIET_STATIC = {"unique", "enumerate", "scan", "zip", "cross_singleton"}
         def noisy(n):
-            if n.op in ("fold", "persist", "source_iter"):
-                return True
+            if n.op in ("fold", "persist", "source_iter", "state", "state_by"):
+                return True     # (state / state_by emit their [state] output in every tick)
             if n.op == "fold_no_replay":
                 return False    # emits at tick 0 only
             if "static" in n.pers and n.op not in QUIET_STATIC:
@@ -1402,7 +1404,7 @@ def order_corpus():
         a, w0, w1, c = p.src(), p.src(), p.src(), p.src()
         acc = p.cell(p.fold(c, "sum", "tick"), "singleton")
         p.sink(p.ref_map(p.map(w0, "inc"), acc, "acc_mut", group=0))
-        p.sink(p.ref_map(p.union(w1, p.map(w0, "dbl")), acc, "acc_mut", group=1))
+        p.sink(p.ref_map(p.map(w1, "dbl"), acc, "acc_mut", group=1))
         rd = p.ref_map(a, acc, "mul_ref", group=2)
         block(p, rd, a)
         p.check()
